@@ -90,7 +90,51 @@ def nearest_offsets(facts, fname):
                         base_ok = True
                 except Exception:      # noqa: BLE001 - some other floor(..): not the base sub-index
                     pass
-    return fn, offs, wrap_lo, wrap_hi, base_ok
+    # base index: every value the index variable starts from is floor(t) (directly, or through an immutable local)
+    idx_ok = bool(pairs)
+    for A, _ in pairs:
+        vals = [x["init"] for x in walk(fn["body"]) if x.get("k") == "let" and x.get("init") is not None and x["pat"].get("k") == "pident" and x["pat"]["name"] == A]
+        vals += [x["r"] for x in walk(fn["body"]) if x.get("k") == "assign" and is_path(x["l"], A)]
+        if not vals:
+            idx_ok = False
+        for v in vals:
+            v = strip_casts(ir.resolve_let(fn, strip_casts(v)))
+            if not (v.get("k") == "mcall" and v["name"] == "floor" and not v["args"] and is_path(v["recv"], tname)):
+                idx_ok = False
+    return fn, offs, wrap_lo, wrap_hi, base_ok and idx_ok
+
+
+def nearest_single_ok(facts):
+    """get_nearest_time: (floor(t), round((t - floor(t))·factor)) with a carry into the index when the sub-index reaches factor"""
+    fn = facts.need_free_fn("interpolation", "get_nearest_time")
+    tname = fn["params"][0]["name"]
+    fac = fn["params"][1]["name"] if len(fn["params"]) > 1 else "factor"
+    tail = fn["body"]["stmts"][-1] if fn["body"]["stmts"] else None
+    if not (tail is not None and tail.get("k") == "expr" and tail["e"].get("k") == "tuple" and len(tail["e"]["elems"]) == 2 and all(is_path(e_) for e_ in tail["e"]["elems"])):
+        return fn, False
+    A, B = tail["e"]["elems"][0]["p"], tail["e"]["elems"][1]["p"]
+    inits = {x["pat"]["name"]: x["init"] for x in walk(fn["body"]) if x.get("k") == "let" and x.get("init") is not None and x["pat"].get("k") == "pident"}
+    ia, ib = inits.get(A), inits.get(B)
+    if ia is None or ib is None:
+        return fn, False
+    ia, ib = strip_casts(ir.resolve_let(fn, strip_casts(ia))), strip_casts(ib)
+    a_ok = ia.get("k") == "mcall" and ia["name"] == "floor" and is_path(ia["recv"], tname)
+    b_ok = False
+    if ib.get("k") == "mcall" and ib["name"] == "round" and not ib["args"]:
+        ib = dict(ib, recv=ir.resolve_let(fn, ib["recv"]))        # the scaled fraction given a name first
+        a_ = Alg(TypeEnv(locals_={tname: "f64", fac: "int"}))
+        tv, fv = a_.sym(tname), a_.sym(fac)
+        try:
+            b_ok = sp.simplify(a_.conv(ib["recv"]) - (tv - floor_f(tv)) * fv) == 0
+        except Exception:      # noqa: BLE001
+            b_ok = False
+    carry = False
+    for x in walk(fn["body"]):
+        if x.get("k") == "if" and x["c"].get("k") == "bin" and x["c"]["op"] == ">=" and is_path(x["c"]["l"], B) and is_path(x["c"]["r"], fac) and not x.get("else"):
+            ups = {(y["l"]["p"], y["op"], nbit(y["r"])) for y in walk(x["then"]) if y.get("k") == "opassign" and is_path(y["l"])}
+            carry = ups == {(B, "-", fac), (A, "+", "i:1")}
+    others = [x for x in walk(fn["body"]) if x.get("k") in ("assign", "opassign") and is_path(x["l"]) and x["l"]["p"] in (A, B)]
+    return fn, a_ok and b_ok and carry and len(others) == 2
 
 
 def rule_nodes(rep, polys):
@@ -106,9 +150,7 @@ def rule_nodes(rep, polys):
                loc(fn), sample={"nearest": nfn, "offsets": offs, "blend": blend, "nodes": nodes})
         tables[variant] = offs
     # get_nearest_time (Nearest): round to the closest sub-index, wrap above
-    fn = facts.need_free_fn("interpolation", "get_nearest_time")
-    txt = show(fn["body"])
-    ok = ".round()" in txt and "subindex -= factor" in txt and "index += 1" in txt
+    fn, ok = nearest_single_ok(facts)
     rep.ob(R, "get_nearest_time", ok, "Nearest picks round(frac(t)·factor) and carries into the index when it reaches factor", loc(fn))
     # every arm: right nearest fn, points array of the right length, x = frac(idx·factor), positions from idx
     for t in ("SincFixedIn", "SincFixedOut"):
